@@ -190,6 +190,9 @@ pub struct RecGen {
     /// one run in `twin_mega_1_in` (0 = never) is 2-3 copies of one record of 2^20 .. 1.15 M
     /// bases: the counter's workers then walk the same k-mers at the same time
     pub twin_mega_1_in: u64,
+    /// one run in `many_1_in` takes its record count from the ladder (1 500 everywhere but
+    /// where rows are cheap and block arithmetic on the record count is the likely slip)
+    pub many_1_in: u64,
 }
 
 const ALPHAS: [Alpha; 7] = [
@@ -231,7 +234,7 @@ impl RecGen {
         };
         // rare stratum: very many tiny records, to cross the 1 000-record buffer
         // capacity and the 10 000-record progress tick in the pipelines
-        let many = self.max_records >= 16 && rng.chance(1, 1500);
+        let many = self.max_records >= 16 && rng.chance(1, self.many_1_in.max(1));
         // ... on a ladder: a little around 1 000, 10 000 and the powers of two up to 2^16
         // and small multiples of them -- "exactly k blocks", "one more than fits", "the
         // 65 537th record" are where block arithmetic goes wrong
